@@ -195,6 +195,76 @@ def classify(s):
     return f'agg/prohibited/{fns}/{a["aggs"][0]["op"]}'
 
 
+# ---------------------------------------------------------------------------
+# whole-instance counting: `the number of <declared concept> with <key> N`, with a `where` restriction on the outer label
+# ---------------------------------------------------------------------------
+INST_DECL = ('A nurse is identified by an id.\nA ward is identified by an id.\nAn assignment is identified by a nurse, and by a ward.\n'
+             'A nurse goes from 1 to 3.\nA ward goes from 1 to 2.\n'
+             'Whenever there is a nurse N, whenever there is a ward W, then we can have an assignment with nurse id N, with ward id W.\n')
+INST_CMP = {'less than': lambda a, b: a < b, 'more than': lambda a, b: a > b, 'at most': lambda a, b: a <= b, 'at least': lambda a, b: a >= b,
+            'equal to': lambda a, b: a == b, 'different from': lambda a, b: a != b}
+
+
+def _instance_job(args):
+    pol, ph, k, ph2, b = args
+    sent = (f'It is {pol} that the number of assignment with nurse id N is {ph} {k}, whenever there is a nurse N, where N is {ph2} {b}.')
+    text = INST_DECL + sent + '\n'
+    r = rt.compile_cnl(text)
+    if r[0] != 'ok':
+        return {'cnl': text, 'rejected': str(r[1])[:200]}
+    ms = rt.clingo_models(r[1], shown={'assignment'})
+    if ms[0] != 'ok':
+        return {'cnl': text, 'program': r[1], 'solver_error': ms[1][:300]}
+    got = {frozenset(m) for m in ms[1]}
+    # direct reading: for every nurse N passing the where clause, the number of assignments of N (over the wards) compared with k
+    want = set()
+    pairs = [(n, w) for n in (1, 2, 3) for w in (1, 2)]
+    for bits in range(1 << len(pairs)):
+        chosen = [p for i, p in enumerate(pairs) if bits >> i & 1]
+        ok = True
+        for n in (1, 2, 3):
+            if not INST_CMP[ph2](n, b):
+                continue
+            holds = INST_CMP[ph](sum(1 for (x, _) in chosen if x == n), k)
+            if holds == (pol == 'prohibited'):
+                ok = False
+                break
+        if ok:
+            want.add(frozenset(f'assignment({n},{w})' for n, w in chosen))
+    out = {'cnl': text, 'program': r[1], 'n': len(got)}
+    if got != want:
+        odd = sorted(got ^ want, key=lambda m: (len(m), sorted(m)))[0]
+        out['diff'] = {'answer_sets': len(got), 'reference_models': len(want), 'example': sorted(odd), 'in_answer_sets': odd in got}
+    return out
+
+
+def instance_family(run, rng, tier):
+    jobs = []
+    for pol in ('prohibited', 'required'):
+        for ph in INST_CMP:
+            for k in (0, 1, 2):
+                for ph2, b in (('less than', 3), ('more than', 1), ('different from', 2), ('at most', 1)):
+                    jobs.append((pol, ph, k, ph2, b))
+    rng2 = random.Random(rng.random())
+    rng2.shuffle(jobs)
+    jobs = jobs[: (40 if tier == 'quick' else len(jobs))]
+    n = 0
+    for j, r in zip(jobs, rt.pmap(_instance_job, jobs, chunksize=2)):
+        run.count(('instance', j))
+        key = f'instance-count/{j[0]}'
+        if 'rejected' in r:
+            run.violation('rejected/' + key, f'rejected by the compiler: {r["rejected"][:200]}', {'cnl': r['cnl']})
+        elif 'solver_error' in r:
+            run.violation('solver-error/' + key, f'clingo rejects the compiled program: {r["solver_error"][:200]}', {'cnl': r['cnl'], 'program': r['program']})
+        else:
+            n += 1
+            if 'diff' in r:
+                run.violation(key, f'answer sets differ from the direct reading ({r["diff"]["answer_sets"]} vs {r["diff"]["reference_models"]}); '
+                              f'e.g. {r["diff"]["example"]} is {"" if r["diff"]["in_answer_sets"] else "not "}an answer set',
+                              {'cnl': r['cnl'], 'program': r['program'], **r['diff']})
+    run.coverage['whole_instance_count_sentences'] = n
+
+
 def main(tier):
     run = common.Run(PROP, tier)
     rng = random.Random(run.seed)
@@ -275,6 +345,7 @@ def main(tier):
                           f'answer sets differ from the direct reading ({r["diff"]["answer_sets"]} vs {r["diff"]["reference_models"]}); '
                           f'sentence: {bad.text}', {'cnl': text, 'program': r['program'], 'sentence': bad.text, **r['diff']})
     run.coverage['focused_searches'] = len(jobs)
+    instance_family(run, rng, tier)
     c01.lean_reading_check(run, [(sp.ast(), r.get('probes'), sp.text()) for sp, r in zip(specs, results) if 'probes' in r])
     run.coverage['specifications'] = stats
     run.coverage['aggregate_forms'] = kinds
